@@ -4,7 +4,7 @@
  * C02 assert: the emitted initialiser contains SetBound1( <lower> ), SetBound2( <upper> ) with the declared values,
  *             UniqueElements(LTrue) iff UNIQUE, OptionalElements(LTrue) iff OPTIONAL -- nothing flipped, nothing invented.
  * C12 assert: a second copy of the same type at different addresses (pointer payloads differ) yields identical text. */
-#define VERIF_INPUTS(S,A) S(unsigned char,up) S(unsigned char,upkind) S(unsigned long,a1) S(unsigned long,a2)
+#define VERIF_INPUTS(S,A) S(unsigned char,up) S(unsigned char,upkind) S(unsigned long,a1) S(unsigned long,a2) S(unsigned char,rt)
 #include "verif.h"
 #include <stdio.h>
 #include <string.h>
@@ -48,7 +48,8 @@ void harness(void) {
     e1.symbol.resolved = e2.symbol.resolved = 1;
     if(upkind == 0) { e1.type = e2.type = Type_Integer; e1.u.integer = e2.u.integer = up; }
     else if(upkind == 1) { e1.type = e2.type = Type_Integer; e1.u.integer = e2.u.integer = INT_MAX; }             /* "?" */
-    else { e1.type = e2.type = Type_Identifier; e1.u.entity = (void *)a1; e2.u.entity = (void *)a2; }            /* CONSTANT reference: payload is an address */
+    else { struct Scope_ *r = (rt % 3 == 0) ? 0 : ((rt % 3 == 1) ? Type_Integer : Type_Identifier);
+           e1.type = e2.type = Type_Identifier; e1.u.entity = (void *)a1; e2.u.entity = (void *)a2; e1.return_type = e2.return_type = r; }   /* CONSTANT reference: payload is an address; static result type symbolic */
     run_no = 0; AGGRprint_bound(stdout, stderr, "t_0", "agg", "SdaiCls", &e1, nr);
     CHECK(nev[0] == 1, "exactly one initialiser statement is emitted for a resolved bound");
     if(upkind == 0) { e = find(0, EV_BOUND_INT, nr); CHECK(e && e->val == up, "literal bound is emitted with its declared value under the right bound number"); }
